@@ -72,8 +72,8 @@ func init() {
 			Old: "\tfor range s.CertChan { // UnsatChan may stop before the end of the certificate: let the solver terminate\n\t}\n\tif status := <-statusChan; !valid || status == solver.Sat {",
 			New: "\tif !valid || s.Stats.NbConflicts < 0 {", Expect: "R16.2"},
 		seed{Prop: "C16", Name: "forwarder-reads-stats-while-producer-runs", File: "maxsat/parser.go",
-			Old: "\t\tif res.Status == solver.Sat {\n\t\t\tres.Model = res.Model[:s.firstRelax]",
-			New: "\t\tif res.Status == solver.Sat && s.solver.Stats.NbConflicts >= 0 {\n\t\t\tres.Model = res.Model[:s.firstRelax]", Expect: "R16.2"},
+			Old: "\tfor res = range localRes {\n\t\tif res.Status == solver.Sat {\n\t\t\tres.Model = res.Model[:s.firstRelax]",
+			New: "\tfor res = range localRes {\n\t\tif res.Status == solver.Sat && s.solver.Stats.NbConflicts >= 0 {\n\t\t\tres.Model = res.Model[:s.firstRelax]", Expect: "R16.2"},
 		seed{Prop: "C16", Name: "benign-status-via-channel-unbuffered-after-drain", File: "explain/check.go",
 			Old: "statusChan := make(chan solver.Status, 1)", New: "statusChan := make(chan solver.Status, 2)", Expect: ""},
 	)
